@@ -335,7 +335,7 @@ func (m *bsMachine) finishGet(c *bsCons, wantVal int, wantErr bool) {
 	if r.err != nil {
 		m.fail("C01+C03/get-error", "Get(c%d) failed with %v although value %d at index %d is retained (base %d, |G| %d)", c.id, r.err, wantVal, c.pos(), m.base, len(m.G))
 	}
-	if r.v != any(wantVal) {
+	if r.v != bsPayload(wantVal) {
 		if c.afterCommit {
 			m.fail("C02+C01+C03/value-after-commit", "Get(c%d) right after a Commit returned %v, expected %d (index %d): Commit must make exactly the reads made so far permanent", c.id, r.v, wantVal, c.pos())
 		}
@@ -374,7 +374,7 @@ func (m *bsMachine) checkObservers() {
 		if !m.on("C01", "C03", "C12") {
 			break
 		}
-		if v != any(m.G[nb+i]) {
+		if v != bsPayload(m.G[nb+i]) {
 			m.fail("C01+C03+C12/slice-content", "Slice()[%d]=%v, expected %d: Slice must equal the not-yet-evicted suffix of the put order", i, v, m.G[nb+i])
 		}
 	}
@@ -561,7 +561,7 @@ func (m *bsMachine) rulePut(t *rapid.T) {
 	vals := m.nextTokens(k)
 	args := make([]any, k)
 	for i, v := range vals {
-		args[i] = v
+		args[i] = bsPayload(v)
 	}
 	for _, c := range m.cons {
 		if c.getOp != nil {
@@ -697,7 +697,7 @@ func (m *bsMachine) ruleRaceWake(t *rapid.T) {
 	vals := m.nextTokens(k)
 	args := make([]any, k)
 	for i, v := range vals {
-		args[i] = v
+		args[i] = bsPayload(v)
 	}
 	put := func() {
 		if err := m.b.Put(context.Background(), args...); err != nil {
@@ -790,6 +790,14 @@ func (m *bsMachine) ruleRollback(t *rapid.T) {
 	}
 	m.simple = true
 	m.settle()
+}
+
+// bsPayload is the value put for token v: nil is a legal value like any other (every seventh token is put as nil)
+func bsPayload(v int) any {
+	if v%7 == 3 {
+		return nil
+	}
+	return v
 }
 
 // spin gives other goroutines ample opportunity to run without declaring quiescence
@@ -1146,7 +1154,7 @@ func (m *bsMachine) ruleRange(t *rapid.T) {
 			vals := m.nextTokens(a.k)
 			args := make([]any, a.k)
 			for j, v := range vals {
-				args[j] = v
+				args[j] = bsPayload(v)
 			}
 			if err := m.b.Put(nil, args...); err != nil {
 				panic(fmt.Sprintf("harness: put inside range failed: %v", err))
@@ -1190,7 +1198,7 @@ func (m *bsMachine) ruleRange(t *rapid.T) {
 			wantRes = "blocked" // only the package-level Range can get here
 			break
 		}
-		want = append(want, bsRangeCall{idx, simG[pos]})
+		want = append(want, bsRangeCall{idx, bsPayload(simG[pos])})
 		delta++
 		act := bsRangeAct{kind: "cont"}
 		if idx < len(script) {
@@ -1212,7 +1220,7 @@ func (m *bsMachine) ruleRange(t *rapid.T) {
 			cancelled = true
 		}
 		if act.kind == "steal" && committed+delta < len(simG) {
-			wantStolen = append(wantStolen, simG[committed+delta])
+			wantStolen = append(wantStolen, bsPayload(simG[committed+delta]))
 			delta++ // read by the other reader; covered by the same Commit
 		}
 		committed += delta // committed only after the callback returned
